@@ -1272,14 +1272,13 @@ func handleAction(c *webClient, a any) error {
 		id := c.Id()
 		user := c.Username()
 		d := c.Data()
-		clients := g.GetClients(nil)
-		go func(clients []group.Client) {
-			for _, cc := range clients {
-				cc.PushClient(
-					g.Name(), "change", id, user, perms, d,
-				)
-			}
-		}(clients)
+		// Notify the clients synchronously: notifications about
+		// a given client must reach the other clients in order.
+		for _, cc := range g.GetClients(nil) {
+			cc.PushClient(
+				g.Name(), "change", id, user, perms, d,
+			)
+		}
 	case kickAction:
 		return group.KickError{
 			a.id, a.username, a.message,
@@ -1989,14 +1988,13 @@ func handleClientMessage(c *webClient, m clientMessage) error {
 			user := c.Username()
 			perms := c.Permissions()
 			data = c.Data()
-			go func(clients []group.Client) {
-				for _, cc := range clients {
-					cc.PushClient(
-						g.Name(), "change",
-						id, user, perms, data,
-					)
-				}
-			}(g.GetClients(nil))
+			// see the comment in permissionsChangedAction
+			for _, cc := range g.GetClients(nil) {
+				cc.PushClient(
+					g.Name(), "change",
+					id, user, perms, data,
+				)
+			}
 		default:
 			return group.UserError("unknown user action")
 		}
